@@ -4,7 +4,7 @@ import ast
 from ..core.model import AnchorError, FuncInfo, ClassInfo
 from ..core.cfg import walk_shallow, cfg_of
 from ..core.facts import U
-from ..engine import argn, fn_name, kwarg
+from ..engine import argn, fn_name, kwarg, local_defs
 
 T, F, UNK = True, False, None
 
@@ -306,6 +306,170 @@ def truthiness_uses(f, name):
 
 
 
+
+
+
+# ------------------------------------------------------------------ a constructor that modifies a container the caller owns
+_MUTATORS = {"update", "append", "extend", "pop", "setdefault", "clear", "remove", "insert", "add", "discard", "sort", "reverse", "popitem"}
+CALLER_MUTATION_OK = {
+    ("PopulationBasedTraining", "__init__", "search_options"): "removes an unsupported key (with a warning) from the options it was given; nothing of the scheduler leaks into them",
+}
+
+
+def caller_container_mutations(f):
+    """[(statement, variable)] in a constructor-like method (__init__, _create_internal*, configure_scheduler): a local that is
+    (an alias of) a parameter, `kwargs[...]`, `kwargs.get(...)` or `dict_get(kwargs, ...)` - not a copy - is modified in
+    place.  What the constructor writes (its seed generator, metric names, a back reference to itself) then lives in the
+    caller's dictionary and reaches whatever the caller builds from it next."""
+    if f.name not in ("__init__", "configure_scheduler") and not f.name.startswith("_create_internal"):
+        return []
+    ps = set(f.params) - {"self", "cls"}
+    kw = f.node.args.kwarg.arg if f.node.args.kwarg is not None else None
+
+    def is_copy(e):
+        return isinstance(e, ast.Call) and fn_name(e) in ("copy", "deepcopy", "dict", "list", "set", "sorted", "filter_by_key", "check_and_merge_defaults")
+
+    def from_caller(e, depth=3):
+        if isinstance(e, ast.Name):
+            ds = [d for d in local_defs(f, e.id) if not isinstance(d, tuple)]
+            if e.id in ps and not ds:
+                return e.id != kw
+            return depth > 0 and bool(ds) and not any(is_copy(d) or isinstance(d, (ast.Dict, ast.List, ast.Set, ast.DictComp, ast.ListComp)) for d in ds) \
+                and any(from_caller(d, depth - 1) for d in ds)
+        if isinstance(e, ast.Subscript):
+            return isinstance(e.value, ast.Name) and e.value.id in ps
+        if isinstance(e, ast.Call) and fn_name(e) in ("get", "pop") and isinstance(e.func, ast.Attribute) and isinstance(e.func.value, ast.Name) and e.func.value.id in ps:
+            return True
+        if isinstance(e, ast.Call) and fn_name(e) == "dict_get" and e.args and isinstance(e.args[0], ast.Name) and e.args[0].id in ps:
+            return True
+        if isinstance(e, ast.IfExp):
+            return from_caller(e.body, depth) or from_caller(e.orelse, depth)
+        return False
+    def origin(e, depth=3):
+        """what the caller knows the container as: the parameter name, or the key it was looked up under"""
+        if isinstance(e, ast.Name):
+            ds = [d for d in local_defs(f, e.id) if not isinstance(d, tuple)]
+            if e.id in ps and not ds:
+                return e.id
+            for d in ds:
+                o = origin(d, depth - 1) if depth > 0 else None
+                if o is not None:
+                    return o
+            return None
+        if isinstance(e, ast.Subscript) and isinstance(e.slice, ast.Constant):
+            return e.slice.value
+        if isinstance(e, ast.Call) and fn_name(e) in ("get", "pop") and e.args and isinstance(e.args[0], ast.Constant):
+            return e.args[0].value
+        if isinstance(e, ast.Call) and fn_name(e) == "dict_get" and len(e.args) > 1 and isinstance(e.args[1], ast.Constant):
+            return e.args[1].value
+        return None
+    out = []
+    for x in walk_shallow(f.node):
+        tgt = None
+        if isinstance(x, ast.Call) and isinstance(x.func, ast.Attribute) and x.func.attr in _MUTATORS and isinstance(x.func.value, ast.Name):
+            tgt = x.func.value
+        elif isinstance(x, (ast.Assign, ast.Delete)) and isinstance(x.targets[0], ast.Subscript) and isinstance(x.targets[0].value, ast.Name):
+            tgt = x.targets[0].value
+        if tgt is None or tgt.id in ("self", kw):
+            continue
+        if from_caller(tgt) and (f.cls.name if f.cls else "", f.name, origin(tgt)) not in CALLER_MUTATION_OK:
+            out.append((x, tgt.id))
+    return out
+
+# ------------------------------------------------------------------ an attribute that is written and read by nobody
+WRITE_ONLY_OK = {
+    # (class, attribute): reason
+    ("PopulationBasedTraining", "_population_size"): "constructor argument kept for reference, not used by the algorithm",
+    ("PopulationBasedTraining", "_next_perturbation_sync"): "left over from the synchronous variant, unused",
+    ("PopulationBasedTraining", "_num_checkpoints"): "statistics counter",
+    ("PopulationBasedTraining", "_num_perturbations"): "statistics counter",
+    ("MOASHA", "_num_stopped"): "statistics counter",
+    ("DifferentialEvolutionHyperbandScheduler", "num_selection_skipped"): "public statistics counter",
+}
+_ATTR_LOADS = {}
+
+
+def _attribute_loads(P):
+    key = id(P)
+    if key not in _ATTR_LOADS:
+        _ATTR_LOADS.clear()
+        names = set()
+        for m in P.modules.values():
+            for x in ast.walk(m.tree):
+                if isinstance(x, ast.Attribute) and isinstance(x.ctx, ast.Load):
+                    names.add(x.attr)
+                elif isinstance(x, ast.Call) and isinstance(x.func, ast.Name) and x.func.id in ("getattr", "hasattr") and len(x.args) >= 2 \
+                        and isinstance(x.args[1], ast.Constant) and isinstance(x.args[1].value, str):
+                    names.add(x.args[1].value)
+        _ATTR_LOADS[key] = names
+    return _ATTR_LOADS[key]
+
+
+def write_only_attributes(ctx, f):
+    """[(store node, attribute)] `self.X = ...` where no code of the program ever reads an attribute X (of any object) nor names
+    it in a string: the value is parked where its reader does not look - typically the reader uses another spelling
+    (`_x` / `x`), so it keeps seeing a default"""
+    if f.cls is None:
+        return []
+    loads = _attribute_loads(ctx.P)
+    fam = _family_self_loads(ctx, f.cls)
+    out = []
+    for x in walk_shallow(f.node):
+        if isinstance(x, ast.Attribute) and isinstance(x.ctx, ast.Store) and isinstance(x.value, ast.Name) and x.value.id == "self" \
+                and (f.cls.name, x.attr) not in WRITE_ONLY_OK:
+            twin = x.attr[1:] if x.attr.startswith("_") else "_" + x.attr
+            if x.attr not in loads or (x.attr not in fam and twin in fam):
+                out.append((x, x.attr))
+    return out
+
+
+_FAM_LOADS = {}
+
+
+def _family_self_loads(ctx, cls):
+    """attribute names read as `self.X` (or through getattr(self, 'X')) anywhere in cls, its base classes and its subclasses"""
+    key = (id(ctx.P), cls.name)
+    if key not in _FAM_LOADS:
+        names = set()
+        for k in ctx.family(cls):
+            for x in ast.walk(k.node):
+                if isinstance(x, ast.Attribute) and isinstance(x.ctx, ast.Load) and isinstance(x.value, ast.Name) and x.value.id == "self":
+                    names.add(x.attr)
+                if isinstance(x, ast.AugAssign) and isinstance(x.target, ast.Attribute) and isinstance(x.target.value, ast.Name) and x.target.value.id == "self":
+                    names.add(x.target.attr)
+        _FAM_LOADS[key] = names
+    return _FAM_LOADS[key]
+
+# ------------------------------------------------------------------ a parameter that is accepted and then ignored
+UNUSED_PARAM_OK = {
+    # (function, parameter): reason
+    ("_update_searcher_internal", "config"): "kept for the signature; the function only removes the previously reported case",
+    ("_update_searcher_internal", "result"): "kept for the signature; the function only removes the previously reported case",
+    ("AddJitterOp_vjp", "*"): "signature prescribed by autograd's defvjp",
+    ("cholesky_factorization_vjp", "*"): "signature prescribed by autograd's defvjp",
+}
+
+
+def ignored_parameters(ctx, f):
+    """[parameter] of a constructor, or of a function / method that overrides nothing and is overridden by nothing, that the
+    body never reads: a value the caller supplies (a mode, a seed, the number of brackets, ...) is dropped on the floor and a
+    default takes its place further down.  Interface methods are exempt - they must accept what the protocol passes."""
+    if f.parent is not None:
+        return []
+    a = f.node.args
+    ps = [x.arg for x in a.posonlyargs + a.args + a.kwonlyargs if x.arg not in ("self", "cls")]
+    body = [s_ for s_ in f.node.body if not (isinstance(s_, ast.Expr) and isinstance(s_.value, ast.Constant))]
+    if not ps or not body or all(isinstance(s_, (ast.Pass, ast.Raise)) for s_ in body):
+        return []
+    if len(body) == 1 and isinstance(body[0], ast.Return) and (body[0].value is None or isinstance(body[0].value, ast.Constant)):
+        return []
+    if f.name != "__init__" and f.cls is not None and any(k is not f.cls and f.name in k.methods for k in ctx.family(f.cls)):
+        return []
+    if any(isinstance(d, ast.Name) and d.id in ("abstractmethod", "staticmethod", "property") for d in f.node.decorator_list) and f.name != "__init__":
+        pass
+    loads = {x.id for x in ast.walk(f.node) if isinstance(x, ast.Name) and isinstance(x.ctx, ast.Load)}
+    return [p_ for p_ in ps if p_ not in loads and (f.name, p_) not in UNUSED_PARAM_OK and (f.name, "*") not in UNUSED_PARAM_OK]
+
 # ------------------------------------------------------------------ an override that no longer runs the base implementation
 CHAINED_METHODS = ("__init__", "configure_scheduler", "_restore_from_state", "get_state", "on_trial_error", "on_tuning_start", "on_tuning_end",
                    "__setstate__", "__getstate__")
@@ -336,6 +500,27 @@ def overrides_without_base_call(ctx, cls):
             (isinstance(x.func.value, ast.Name) and x.func.value.id[:1].isupper()))}
         if not sup or cm.path([cm.entry], cm.exit, deleted=sup, skip_labels=("exc",)) is not None:
             out.append((m, nxt))
+    return out
+
+
+def bypassed_base_calls(ctx, cls):
+    """[(method, call)] a `super().m(...)` call that is a top-level statement of the override m - so the author means it to
+    run always - but that some normal path does not reach (an early return added in front of it)"""
+    out = []
+    for mname, m in cls.methods.items():
+        tops = []
+        for st in m.node.body:
+            if isinstance(st, (ast.Expr, ast.Assign, ast.AnnAssign, ast.Return)) and getattr(st, "value", None) is not None:
+                for x in ast.walk(st.value):
+                    if isinstance(x, ast.Call) and fn_name(x) == mname and isinstance(x.func, ast.Attribute) and isinstance(x.func.value, ast.Call) \
+                            and fn_name(x.func.value) == "super":
+                        tops.append((st, x))
+        if not tops:
+            continue
+        cm = cfg_of(m)
+        marks = {nd.id for nd in cm.nodes if nd.kind == "stmt" and any(nd.ast is st for st, _ in tops)}
+        if marks and cm.path([cm.entry], cm.exit, deleted=marks, skip_labels=("exc",)) is not None:
+            out.append((m, tops[0][1]))
     return out
 
 # ------------------------------------------------------------------ an argument that names another parameter of its callee
@@ -694,13 +879,31 @@ def anchor_files(prop):
     return []
 
 
+EXTRA_SWEPT_FILES = {
+    # property: files outside its anchor list that its quantifier reaches
+    "C01": ["syne_tune/blackbox_repository/simulated_tabular_backend.py"],   # "every benchmark table": the tabular backend overrides the simulator's pause / resume hooks
+    "C12": ["syne_tune/blackbox_repository/simulated_tabular_backend.py"],
+    "C20": ["syne_tune/blackbox_repository/simulated_tabular_backend.py", "syne_tune/backend/simulator_backend/simulator_backend.py"],
+}
+INHERITED_FILES_SKIPPED = {
+    "syne_tune/optimizer/schedulers/searchers/bayesopt/gpautograd/gluon.py":
+        "port of MXNet Gluon's Parameter / Block machinery (framework code with its own conventions: unused hook lists, context-manager signatures)",
+}
+
+
 def cross_cutting(ctx, rep, prop):
     """Lints that are not specific to one property, run over the files the property anchors in (clause X).  Each of them
     matched nothing (or only the listed exceptions) on the tree the rules were written for, and each was the mechanism of at
     least one seeded defect: a value computed and dropped, one fresh list stored in two places, list positions deleted in
     ascending order, a container mutated while it is iterated, a running max / min that forgets its history, an optional
     number tested for truth."""
-    files = set(anchor_files(prop))
+    files = set(anchor_files(prop)) | set(EXTRA_SWEPT_FILES.get(prop, []))
+    # what the anchored classes inherit is part of them: the files that define their base classes are swept as well
+    for c_ in list(ctx.P.classes.values()):
+        if c_.module.relpath in files:
+            for b_ in ctx.P.mro(c_):
+                if b_.module.relpath not in INHERITED_FILES_SKIPPED:
+                    files.add(b_.module.relpath)
     funcs = [f for f in sorted(ctx.P.functions.values(), key=lambda f: f.qualname) if f.module.relpath in files]
     if not funcs:
         rep.info("X", "cross_cutting", f"no function of the anchored files of {prop} found", None, None, "")
@@ -740,6 +943,19 @@ def cross_cutting(ctx, rep, prop):
                 bad += 1
                 rep.bad("X", "guarded_by", f"{f.short}: optional number `{p_}` is tested with `is None`, not for truth", f, u,
                         f"`{U(u)[:70]}` treats `{p_} = 0` as 'not given'")
+        for node_, var_ in caller_container_mutations(f):
+            bad += 1
+            rep.bad("X", "aliasing", f"{f.short}: `{var_}` is the constructor's own copy when it is modified", f, node_,
+                    f"`{U(node_)[:70]}` modifies a container the caller handed in (no copy was taken): what the constructor writes into it "
+                    "reaches whatever the caller builds from the same object next")
+        for node_, attr_ in write_only_attributes(ctx, f):
+            bad += 1
+            rep.bad("X", "agreement", f"{f.short}: attribute `{attr_}` has a reader", f, node_,
+                    f"`self.{attr_}` is written by {f.short} and read nowhere in the package (under this spelling): whoever needs the value keeps seeing a default")
+        for p_ in ignored_parameters(ctx, f):
+            bad += 1
+            rep.bad("X", "agreement", f"{f.short}: parameter `{p_}` is used", f, f.param_node(p_),
+                    f"`{p_}` is accepted by {f.short} and never read: the caller's value is dropped and a default takes its place further down")
         for call_, par_, txt_ in argument_name_mismatches(f):
             if (f.name, fn_name(call_), par_) in ARG_NAME_OK:
                 continue
@@ -751,6 +967,11 @@ def cross_cutting(ctx, rep, prop):
             rep.bad("X", "guarded_by", f"{f.short}: a looked-up number is defaulted on absence, not on falsity", f, u,
                     f"`{U(u)[:70]}` replaces a stored 0 by the default: the lookup needs `.get(key, default)` / an `is None` test")
     for c_ in sorted({f.cls for f in funcs if f.cls is not None}, key=lambda c_: c_.qualname if hasattr(c_, "qualname") else c_.name):
+        for m_, call_ in bypassed_base_calls(ctx, c_):
+            bad += 1
+            rep.bad("X", "must_follow", f"{c_.name}.{m_.name}: the base implementation it calls unconditionally is reached on every path", m_, call_,
+                    f"`{U(call_)[:60]}` is a top-level statement of {c_.name}.{m_.name}, yet a path returns before it: on that path the base class "
+                    "never does its part (the backend is not told, the record is not written, the event is not scheduled)")
         for m_, base_ in overrides_without_base_call(ctx, c_):
             bad += 1
             rep.bad("X", "must_follow", f"{c_.name}.{m_.name} runs the implementation it overrides ({base_.cls.name}.{m_.name})", m_, None,
